@@ -220,6 +220,17 @@ def cargo_env():
 def build_harness(package="vh", timeout=3000):
     """Builds the harness against /repo's current working tree. Returns path of the binary."""
     t0 = time.time()
+    if package == "vh":
+        # harness glue generated from the object table / published docs (setup.sh writes it too):
+        # a fresh restore, or a check run without setup, still builds
+        gen = os.path.join(HARNESS, "vh", "src", "generated")
+        need = {"login_dispatch.rs": "tools.gen_dispatch", "collective_dispatch.rs": "tools.gen_dispatch",
+                "mask_gen.rs": "tools.gen_mask", "definer_gen.rs": "tools.gen_definer", "chunks_gen.rs": "tools.gen_chunks"}
+        for mod in sorted({m for f, m in need.items() if not os.path.exists(os.path.join(gen, f))}):
+            os.makedirs(gen, exist_ok=True)
+            g = subprocess.run([sys.executable, "-m", mod], cwd=VERIF, capture_output=True, text=True, timeout=600)
+            if g.returncode != 0:
+                raise ToolError("generating harness glue with %s failed:\n%s" % (mod, g.stderr[-2000:]))
     p = subprocess.run(["cargo", "build", "--offline", "-p", package], cwd=HARNESS, env=cargo_env(),
                        capture_output=True, text=True, timeout=timeout)
     if p.returncode != 0:
